@@ -30,6 +30,9 @@ func (m *Model) IsSharedWord(a AddrPath) bool {
 						if b, ok := st.Field(i).Type().(*types.Basic); ok && b.Kind() == types.Int64 {
 							return true
 						}
+						if IsAtomicWordType(st.Field(i).Type()) {
+							return true
+						}
 					}
 				}
 			}
